@@ -4,7 +4,8 @@
    Only statements: each closed by `exact <lemma>` + Print Assumptions.  The proofs are in Proofs/BrokerHolder.v.
 
    Queue OBJECTS are identified by their id (Proofs/BrokerHeld.v): held s qid = ready_of s qid ++ unacked_of s qid.
-   [HI] is the inductive invariant (single holder + freshness of message ids and queue ids + the store holds no key twice).
+   [HI] is the inductive invariant (single holder + freshness of message ids and queue ids + the store holds no key twice, no key
+   both written and pending + one queue object per name).
    The only repair the proofs need is fx_clear_current (F37: the current message of a channel is cleared once it is routed);
    without it the invariant is false (Proofs/BrokerHolder.v: clear_current_needed). *)
 From Coq Require Import List String NArith ZArith Bool.
@@ -139,12 +140,160 @@ Theorem C02_restart_held :
 Proof. exact restart_held. Qed.
 Print Assumptions C02_restart_held.
 
-(* partial: under the hypothesis that the flushed store is in step with the queues (not an invariant of the model: see
-   restart_resurrects_acked and restart_ghost_in_redeclared_queue in Proofs/BrokerHolder.v) *)
+(* partial: a restart at ANY point (a kill included), under the hypothesis that the flushed store is in step with the queues
+   - not an invariant: a kill with a delete pending brings an acknowledged message back (Proofs/BrokerHolder.v:
+   kill_resurrects_acked).  For graceful restarts see below. *)
 Theorem C02_settled_never_again_restart_partial :
   forall cfg s qid u, store_in_step s -> ~ In u (held s qid) -> ~ In u (held (fst (restart cfg s)) qid).
 Proof. exact settled_never_again_restart_partial. Qed.
 Print Assumptions C02_settled_never_again_restart_partial.
+
+(* ---- graceful restarts ([LPersistTick; LRestart]: a graceful stop writes out what is pending) ---- *)
+(* what the persist tick writes is the effective store *)
+Theorem C02_tick_writes_effective_store :
+  forall cfg fx s k, In k (st_db (fst (step cfg fx s LPersistTick))) -> eff s k.
+Proof. exact tick_db_eff. Qed.
+Print Assumptions C02_tick_writes_effective_store.
+
+(* gone for good = published, allocated queue object does not hold it, its key is not in the effective store under the
+   object's name; preserved by every label of a graceful run *)
+Theorem C02_gone_for_good_run :
+  forall cfg fx u qid ls prev s,
+    fx_clear_current fx = true -> graceful_from prev ls = true -> (prev = true -> st_add s = [] /\ st_del s = []) ->
+    CI s -> HI s -> gone_for_good u qid s -> gone_for_good u qid (fst (run cfg fx s ls)).
+Proof. exact gone_for_good_run. Qed.
+Print Assumptions C02_gone_for_good_run.
+
+Theorem C02_settled_never_again_graceful :
+  forall cfg fx ls0 ls2 qid u,
+    fx_clear_current fx = true -> graceful ls2 = true ->
+    let s1 := fst (run cfg fx (init cfg) ls0) in
+    gone_for_good u qid s1 -> ~ In u (held (fst (run cfg fx s1 ls2)) qid).
+Proof. exact settled_never_again_graceful. Qed.
+Print Assumptions C02_settled_never_again_graceful.
+
+(* how a settled message becomes gone for good *)
+Theorem C02_gone_for_good_intro :
+  forall u qid s0 s1,
+    HI s0 -> In u (held s0 qid) -> GR s0 s1 -> ~ In u (held s1 qid) -> key_gone u qid s1 -> gone_for_good u qid s1.
+Proof. exact gone_for_good_intro. Qed.
+Print Assumptions C02_gone_for_good_intro.
+
+(* Queue.AckMsg (ack, reject without requeue, no-ack delivery) of a persistent message of a durable queue (no key is at once
+   written and pending: HI.hi_db_add) *)
+Theorem C02_ackmsg_key_gone :
+  forall s qn u qu m,
+    HI s -> get_queue s qn = Some qu -> get_msg s u = Some m -> q_active qu = true -> q_durable qu && m_pers m = true ->
+    key_gone u (q_id qu) (queue_ackmsg s qn u).
+Proof. exact ackmsg_key_gone. Qed.
+Print Assumptions C02_ackmsg_key_gone.
+
+Theorem C02_ack_gone_for_good :
+  forall s c h e qu m,
+    HI s -> In e (U s c h) -> origin_queue s e = Some qu -> q_active qu = true -> get_msg s (u_msg e) = Some m ->
+    q_durable qu && m_pers m = true ->
+    gone_for_good (u_msg e) (u_qid e) (chan_ackmsg (upd_chan s c h (fun ch => del_unacked ch (u_tag e))) e).
+Proof. exact ack_gone_for_good. Qed.
+Print Assumptions C02_ack_gone_for_good.
+
+(* queue.purge / queue deletion: every key of the queue leaves the effective store *)
+Theorem C02_purge_key_gone :
+  forall s qn qid u, HI s -> In (qn, qid) (nmv s) -> key_gone u qid (store_purge s qn).
+Proof. exact purge_key_gone. Qed.
+Print Assumptions C02_purge_key_gone.
+
+(* the store invariant behind it: no key is at once written and pending, in every reachable state *)
+Theorem C02_db_add_disjoint :
+  forall cfg fx ls k, fx_clear_current fx = true ->
+    In k (st_db (fst (run cfg fx (init cfg) ls))) -> ~ In k (st_add (fst (run cfg fx (init cfg) ls))).
+Proof. intros cfg fx ls k Hfx. exact (hi_db_add _ (HI_reachable cfg fx ls Hfx) k). Qed.
+Print Assumptions C02_db_add_disjoint.
+
+(* ---- end to end, per label (persistent message of a durable queue; the frame arrives on an open channel of an open
+   connection); every continuation in which each restart is preceded by the persist tick ---- *)
+(* any label: u left the object in this step and its key is out of the effective store *)
+Theorem C02_settled_by_step_never_again :
+  forall cfg fx ls0 l ls2 qid u,
+    fx_clear_current fx = true -> is_restart l = false -> graceful ls2 = true ->
+    let s := fst (run cfg fx (init cfg) ls0) in
+    let s' := fst (step cfg fx s l) in
+    In u (held s qid) -> ~ In u (held s' qid) -> key_gone u qid s' -> ~ In u (held (fst (run cfg fx s' ls2)) qid).
+Proof. exact settled_by_step_never_again. Qed.
+Print Assumptions C02_settled_by_step_never_again.
+
+Theorem C02_ack_never_again_graceful :
+  forall cfg fx ls0 ls2 c h tag cn ch e qu m,
+    fx_clear_current fx = true -> graceful ls2 = true ->
+    let s := fst (run cfg fx (init cfg) ls0) in
+    get_conn s c = Some cn -> cn_stage cn = StOpen -> get_chan s c h = Some ch -> ch_status ch = ChOpen -> h <> 0 ->
+    find (fun u => u_tag u =? tag) (ch_unacked ch) = Some e -> origin_queue s e = Some qu -> q_active qu = true ->
+    get_msg s (u_msg e) = Some m -> q_durable qu && m_pers m = true ->
+    ~ In (u_msg e) (held (fst (run cfg fx (fst (step cfg fx s (LMethod c h (MAck tag false)))) ls2)) (u_qid e)).
+Proof. exact ack_never_again_graceful. Qed.
+Print Assumptions C02_ack_never_again_graceful.
+
+Theorem C02_reject_never_again_graceful :
+  forall cfg fx ls0 ls2 c h tag cn ch e qu m,
+    fx_clear_current fx = true -> graceful ls2 = true ->
+    let s := fst (run cfg fx (init cfg) ls0) in
+    get_conn s c = Some cn -> cn_stage cn = StOpen -> get_chan s c h = Some ch -> ch_status ch = ChOpen -> h <> 0 ->
+    find (fun u => u_tag u =? tag) (ch_unacked ch) = Some e -> origin_queue s e = Some qu -> q_active qu = true ->
+    get_msg s (u_msg e) = Some m -> q_durable qu && m_pers m = true ->
+    ~ In (u_msg e) (held (fst (run cfg fx (fst (step cfg fx s (LMethod c h (MReject tag false)))) ls2)) (u_qid e)) /\
+    ~ In (u_msg e) (held (fst (run cfg fx (fst (step cfg fx s (LMethod c h (MNack tag false false)))) ls2)) (u_qid e)).
+Proof. exact reject_never_again_graceful. Qed.
+Print Assumptions C02_reject_never_again_graceful.
+
+Theorem C02_purge_never_again_graceful :
+  forall cfg fx ls0 ls2 c h q nowait cn ch qu u,
+    fx_clear_current fx = true -> graceful ls2 = true ->
+    let s := fst (run cfg fx (init cfg) ls0) in
+    let s' := fst (step cfg fx s (LMethod c h (MQPurge q nowait))) in
+    get_conn s c = Some cn -> cn_stage cn = StOpen -> get_chan s c h = Some ch -> ch_status ch = ChOpen -> h <> 0 ->
+    queue_found s q = Some qu -> locked qu c = false -> q_durable qu = true ->
+    In u (held s (q_id qu)) -> ~ In u (held s' (q_id qu)) ->
+    ~ In u (held (fst (run cfg fx s' ls2)) (q_id qu)).
+Proof. exact purge_never_again_graceful. Qed.
+Print Assumptions C02_purge_never_again_graceful.
+
+Theorem C02_delete_never_again_graceful :
+  forall cfg fx ls0 ls2 c h q iu ie nowait cn ch qu n u,
+    fx_clear_current fx = true -> graceful ls2 = true ->
+    let s := fst (run cfg fx (init cfg) ls0) in
+    let s' := fst (step cfg fx s (LMethod c h (MQDelete q iu ie nowait))) in
+    get_conn s c = Some cn -> cn_stage cn = StOpen -> get_chan s c h = Some ch -> ch_status ch = ChOpen -> h <> 0 ->
+    queue_found s q = Some qu -> locked qu c = false ->
+    snd (vhost_delete_queue (negb (fx_delete_checks_first fx)) s q iu ie) = Some n ->
+    In u (held s (q_id qu)) -> ~ In u (held s' (q_id qu)) ->
+    ~ In u (held (fst (run cfg fx s' ls2)) (q_id qu)).
+Proof. exact delete_never_again_graceful. Qed.
+Print Assumptions C02_delete_never_again_graceful.
+
+Theorem C02_noack_turn_never_again_graceful :
+  forall cfg fx ls0 ls2 c h tag ch cm qu u rest m,
+    fx_clear_current fx = true -> graceful ls2 = true ->
+    let s := fst (run cfg fx (init cfg) ls0) in
+    let s' := fst (step cfg fx s (LConsumerTurn c h tag)) in
+    get_chan s c h = Some ch -> find_consumer ch tag = Some cm -> c_token cm = true -> c_status cm <> CStopped ->
+    get_queue s (c_queue cm) = Some qu -> q_active qu = true -> q_ready qu = u :: rest -> c_noack cm = true ->
+    get_msg s u = Some m -> q_durable qu && m_pers m = true ->
+    In u (held s (q_id qu)) -> ~ In u (held s' (q_id qu)) ->
+    ~ In u (held (fst (run cfg fx s' ls2)) (q_id qu)).
+Proof. exact noack_turn_never_again_graceful. Qed.
+Print Assumptions C02_noack_turn_never_again_graceful.
+
+Theorem C02_noack_get_never_again_graceful :
+  forall cfg fx ls0 ls2 c h q cn ch qu u rest m,
+    fx_clear_current fx = true -> fx_noack_total_once fx = true -> graceful ls2 = true ->
+    let s := fst (run cfg fx (init cfg) ls0) in
+    let s' := fst (step cfg fx s (LMethod c h (MGet q true))) in
+    get_conn s c = Some cn -> cn_stage cn = StOpen -> get_chan s c h = Some ch -> ch_status ch = ChOpen -> h <> 0 ->
+    queue_found s q = Some qu -> fx_excl_owner fx && locked qu c = false -> q_ready qu = u :: rest ->
+    get_msg s u = Some m -> q_durable qu && m_pers m = true ->
+    In u (held s (q_id qu)) -> ~ In u (held s' (q_id qu)) ->
+    ~ In u (held (fst (run cfg fx s' ls2)) (q_id qu)).
+Proof. exact noack_get_never_again_graceful. Qed.
+Print Assumptions C02_noack_get_never_again_graceful.
 
 (* Non-vacuity: two consumers on one queue, one message.  The first turn hands it to c1; c2's turn finds nothing (the message
    is out: held = [] ++ [1]); after nack-requeue it is handed to c2, flagged redelivered; after the ack nobody gets it again. *)
